@@ -53,6 +53,8 @@ def run(repo: Repo, chk: Check) -> None:
         'reference as last argument': ({'prim': P, 'args': [leaf, const('H1')]}, {'prim': P, 'args': [leaf, val1]}),
         'reference inside a sequence': ([leaf, const('H1')], [leaf, val1]),
         'reference in a sequence inside arguments': ({'prim': P, 'args': [[const('H1')]]}, {'prim': P, 'args': [[val1]]}),
+        'reference in a sequence nested directly in a sequence': ([leaf, [const('H1')]], [leaf, [val1]]),
+        'reference three sequences deep': ([[[const('H1')], leaf]], [[[val1], leaf]]),
         'reference nested two applications deep': ({'prim': P, 'args': [{'prim': Q, 'args': [const('H1')]}]},
                                                    {'prim': P, 'args': [{'prim': Q, 'args': [val1]}]}),
         'registered value refers to another constant': (const('H2'), {'prim': Q, 'args': [val1, leaf]}),
@@ -98,23 +100,38 @@ def run(repo: Repo, chk: Check) -> None:
     reg = repo.func(f'{CTX}.register_global_constant')
     final: Dict[str, Any] = {}
 
-    def make2():
-        return Obj(CTX, {'global_constants': {}}), [Sym('expression')], {}
+    # the expression is registered AS GIVEN (references inside it are expanded when it is used): its key is the hash of the forged expression itself
+    for what, expression in (('an opaque expression', Sym('expression')), ('an expression that refers to another constant', {'prim': Q, 'args': [const('H1'), leaf]})):
+        def make2(expression=expression):
+            import copy
+            return Obj(CTX, {'global_constants': {'H1': copy.deepcopy(val1)}}), [copy.deepcopy(expression)], {}
 
-    def after(it, o):
-        it.event('registry', dict(o.fields['global_constants']))
+        def after(it, o):
+            it.event('registry', dict(o.fields['global_constants']))
 
-    res = Interp(repo, _RegHooks(), max_depth=1).run_method(reg, make2, after)
-    want_key = App('call:pytezos.michelson.forge.forge_script_expr', App('call:pytezos.michelson.forge.forge_micheline', Sym('expression')))
-    okk = False
-    for p in res:
-        for e in p.events:
-            if isinstance(e, tuple) and e[0] == 'registry':
-                d = e[1]
-                okk = len(d) == 1 and vkey(list(d.keys())[0]) == vkey(want_key) and vkey(list(d.values())[0]) == vkey(Sym('expression'))
-    chk.ob('R-TEMPLATE', reg.qualname, okk, 'keyed by script-expr hash of the forged expression (no 0x05)', reg.loc,
-           {'registry': [vrepr(e[1]) for p in res for e in p.events if isinstance(e, tuple) and e[0] == 'registry']},
-           what='the registry key is not forge_script_expr(forge_micheline(expression))')
+        hooks = _RegHooks()
+        if not isinstance(expression, Sym):
+            hooks.inline = lambda it, fi: fi.qualname == f'{CTX}.resolve_global_constants'  # type: ignore  # should registration call it, it is interpreted
+        it2 = Interp(repo, hooks, max_depth=30)
+        it2.max_recursion = 8
+        want_key = App('call:pytezos.michelson.forge.forge_script_expr', App('call:pytezos.michelson.forge.forge_micheline', expression))
+        okk = False
+        shown: Any = []
+        try:
+            res = it2.run_method(reg, make2, after)
+            for p in res:
+                for e in p.events:
+                    if isinstance(e, tuple) and e[0] == 'registry':
+                        d = {k: v for k, v in e[1].items() if k != 'H1'}
+                        okk = len(d) == 1 and vkey(list(d.keys())[0]) == vkey(want_key) and vkey(list(d.values())[0]) == vkey(expression)
+            shown = [vrepr(e[1])[:300] for p in res for e in p.events if isinstance(e, tuple) and e[0] == 'registry']
+        except RecursionError:
+            # the stored value refers back to the context object (it was produced by a method of the context): not the expression as given
+            okk, shown = False, ['the registered value is derived from the context itself (cyclic term)']
+        chk.ob('R-TEMPLATE', reg.qualname, okk, f'{what} is stored as given under the script-expr hash of its forged form (no 0x05)', reg.loc,
+               {'registry': shown},
+               what=f'registering {what}: the registry key is not forge_script_expr(forge_micheline(expression)) of the expression as given, or the stored value was rewritten '
+                    f'(a script that refers to the constant by the hash of the registered expression no longer finds it)')
     fse = repo.func('pytezos.michelson.forge.forge_script_expr')
     res = Interp(repo, _RegHooks(), max_depth=1).run_function(fse, [Sym('packed')])
     want = App('mcall:decode', App('call:pytezos.crypto.encoding.base58_encode',
